@@ -13,7 +13,9 @@ for d in sorted(glob.glob(os.path.join(HERE, "seeded", "*"))):
     if not os.path.exists(cf):
         continue
     c = json.load(open(cf))
-    what, needs = notes.get(sid, ["", ""])
+    nn = notes.get(sid, ["", ""])
+    what, needs = nn[0], nn[1]
+    first = nn[2] if len(nn) > 2 else "caught on the first run"
     replays = {}
     for f in glob.glob(os.path.join(d, "check-*.txt")):
         chk = os.path.basename(f)[6:-4]
@@ -23,6 +25,7 @@ for d in sorted(glob.glob(os.path.join(HERE, "seeded", "*"))):
                         "first_replay": (json.loads(rp[0]) if rp else None) if rp and rp[0].endswith("}") else (rp[0][:600] if rp else None)}
     meta = {
         "id": sid, "breaks_property": c["property"], "change": what, "needs_to_manifest": needs,
+        "history": first,
         "source": "independent sub-agent given only the property text and a scratch worktree of /repo",
         "confirmed": {
             "repo_head": c["repo_head"], "demo_exit_on_clean_tree": c["demo_exit_clean"], "demo_exit_with_change": c["demo_exit_patched"],
@@ -35,6 +38,6 @@ for d in sorted(glob.glob(os.path.join(HERE, "seeded", "*"))):
     }
     json.dump(meta, open(os.path.join(d, "meta.json"), "w"), indent=1)
     caught = [k for k, v in c["checks"].items() if v == 1]
-    rows.append(f"| {sid} | {what} | {needs} | {', '.join(caught) if caught else 'MISSED'} |")
+    rows.append(f"| {sid} | {what} | {needs} | {', '.join(caught) if caught else 'MISSED'}{'' if len(nn) < 3 else ' (after strengthening, see below)'} |")
 print("| id | change | needs | caught by (quick tier) |\n|---|---|---|---|")
 print("\n".join(rows))
